@@ -371,6 +371,7 @@ def cases(tier, seed):
     yield from tie_cases(tier)
     yield from resort_cases(tier)
     yield from twin_sort_cases(tier)
+    yield from typed_key_cases(tier)
 
 
 def rev_list(rev, nk):
@@ -382,8 +383,37 @@ def fail_key(site, cls, revs):
     return f'{PID}:{site}:{cls}:' + ('reverse' if any(revs) else 'forward')
 
 
+# Key columns of other kinds than int (the statement says "all tables"): the same key patterns with the
+# two non-None key values mapped into bool, str, float and date columns (class suffix ':<kind>-keys').
+import datetime as _dt
+KEY_KINDS = {'bool': {0: False, 1: True}, 'str': {0: 'a', 1: 'b'}, 'float': {0: 0.5, 1: 1.5},
+             'date': {0: _dt.date(2020, 1, 1), 1: _dt.date(2021, 6, 30)}}
+
+
+def typed_key_cases(tier):
+    kinds = list(KEY_KINDS)
+    for nk, top in ((1, 3 if tier == 'quick' else 4), (2, 2 if tier == 'quick' else 3)):
+        per_row = [list(k) for k in itertools.product(KEYVALS, repeat=nk)]
+        settings = [(r, nl) for r in rev_settings(nk) for nl in (True, False)]
+        idx = 0
+        for n in range(1, top + 1):
+            for combo in itertools.product(per_row, repeat=n):
+                idx += 1
+                for ki, kind in enumerate(kinds):
+                    if nk == 2 and (idx + ki) % 2:
+                        continue
+                    for si, (rev, nl) in enumerate(settings):
+                        if nk == 2 and (idx + si) % 3:
+                            continue
+                        yield {'op': 'table', 'nk': nk, 'rows': [list(r) for r in combo], 'reverse': rev, 'na_last': nl,
+                               'mode': MODES3[(idx + si) % 3], 'kind': kind}
+
+
 def eval_table(case):
     nk, rows, rev, na_last, mode = case['nk'], case['rows'], case['reverse'], case['na_last'], case['mode']
+    if case.get('kind'):
+        km = KEY_KINDS[case['kind']]
+        rows = [[None if x is None else km[x] for x in r] for r in rows]
     n = len(rows)
     descr = f'Table(keys={rows}, pos=0..{n - 1}).sort_by({mode} x{nk}, reverse={rev}, na_last={na_last})'
     keycols = [[r[j] for r in rows] for j in range(nk)]
@@ -606,6 +636,8 @@ def nontrivial(case):
         return ('d', case['form'], len(vals), sum(x is None for x in vals), len(set(vals)) < len(vals), vals != vals[::-1],
                 case['reverse'], case['na_last'], case['in_list'])
     rows = [tuple(r) for r in case['rows']]
+    if case.get('kind'):
+        rows = [tuple((case['kind'], x) for x in r) for r in rows]
     if len(rows) < 2:
         return None
     return ('t', case['nk'], case['mode'], len(rows), repr(case['reverse']), case['na_last'],
